@@ -384,10 +384,11 @@ def check_queries(ctx, ci, seen, case, rng, exhaustive):
         for v in real:
             if id(v) not in scope:
                 probs.append("%s is outside the queried level/subtree" % v.uid)
-        if arch is None and types is None:
+        if arch in (None, "src") and types is None:
+            # no filter means every variant of the level / forest; the pseudo-architecture 'src' matches every variant
             missing = [v.uid for v in members(cvar, recursive) if id(v) not in set(ids)]
             if missing:
-                probs.append("unfiltered call misses %s" % missing)
+                probs.append("%s call misses %s" % ("unfiltered" if arch is None else "arch='src'", missing))
         ctx.monitor("get-variants", fired=bool(probs))
         if probs:
             key = None
